@@ -52,7 +52,10 @@ CONFIG = {
                     "asserted, except at the deepest tip where the documented LTT example fixes the left limit; d = 0 "
                     "is not generated",
                     "Colless and gamma only on strictly bifurcating trees; Colless 'max' and gamma need >= 3 leaves",
-                    "treeness only on trees whose root edge has no length and whose total length is positive",
+                    "treeness only on trees whose total non-root length is positive; when the root edge has a length the value must "
+                    "equal one of the two consistent readings (root edge left out of internal sum and total, or counted as "
+                    "internal in both) - the docstring does not choose",
+                    "gamma, ages, depths and lineage counts never involve the root edge (generated with and without a root length)",
                     "Tree.length counts every edge with a length, including the root edge (docstring: sum of edge lengths)",
                     "yule/pda normalisations are the published formulas (Blum, Francois & Janson 2006)"],
 }
@@ -224,6 +227,8 @@ def gamma_cases(draw, max_leaves):
     else:
         spec, _ = draw(ultra_specs(3, max_leaves, heights=heights, binary=True, unif=False))
     prec = draw(st.sampled_from(["default", 1e-5, 1e-3, 0.25]))
+    if draw(st.booleans()):
+        spec["len"] = draw(st.sampled_from([0.5, 2.0, 0.0, 3.25]))     # root edge: plays no part in gamma
     case = {"kind": kind, "spec": spec, "heights": heights, "prec": prec, "alias": draw(st.booleans()),
             "perm": shapes.permute_children(draw, spec), "shift": None}
     if kind == "shifted":
@@ -929,11 +934,17 @@ def expected_stats(rt):
             total += rt.length[i]
     out["length"] = total
     nonroot = [i for i in rt.nodes() if i != rt.root]
-    if nonroot and all(rt.length[i] is not None for i in nonroot) and rt.length[rt.root] is None:
+    if nonroot and all(rt.length[i] is not None for i in nonroot):
         internal = sum(rt.length[i] for i in nonroot if rt.children[i])
         external = sum(rt.length[i] for i in nonroot if not rt.children[i])
         if internal + external > 0:
+            # reading (a): the edge subtending the root is no branch of the tree (left out of both sums)
             out["treeness"] = internal / (internal + external)
+            r = rt.length[rt.root]
+            if r is not None:
+                # reading (b): the root edge is an internal branch, counted in BOTH the internal sum and the total.
+                # The docstring does not choose; any other value treats the root edge inconsistently.
+                s["treeness_alt"] = (internal + r) / (internal + external + r)
     return out, s
 
 
@@ -996,6 +1007,19 @@ def check_stats(ctx, case):
         name = k.partition(":")[0]
         g, w = got[k], want[k]
         ok = isinstance(g, (int, float)) and not isinstance(g, bool) and close(g, w, scale.get(k, 0.0), 1e-12)
+        if k == "treeness" and "treeness_alt" in s:
+            alt = s["treeness_alt"]
+            ok_b = isinstance(g, (int, float)) and not isinstance(g, bool) and close(g, alt, 0.0, 1e-12)
+            if close(w, alt, 0.0, 1e-12):
+                ctx.cls("stats:treeness_root_length:readings_coincide")
+            elif ok:
+                ctx.cls("stats:treeness_root_length:root_edge_excluded_from_both")
+            elif ok_b:
+                ctx.cls("stats:treeness_root_length:root_edge_internal_in_both")
+            ctx.check(ok or ok_b, "treeness_treats_the_root_edge_consistently", "C17.stat:treeness_root_edge",
+                      lambda: "got %r; want %r (root edge left out of internal sum and total) or %r (counted in both); %s" % (g, w, alt, tag))
+            ctx.check(close(got2[k], g, 0.0, 1e-12), "treeness_independent_of_child_order", "C17.stat_child_order:treeness", tag)
+            continue
         ctx.check(ok, "%s_equals_its_definition" % k, "C17.stat:" + k, lambda: "got %r want %r; %s" % (g, w, tag))
         ok2 = close(got2[k], g, scale.get(k, 0.0), 1e-12)
         ctx.check(ok2, "%s_independent_of_child_order" % name, "C17.stat_child_order:" + k,
@@ -1039,6 +1063,8 @@ def check_gamma(ctx, case):
     tag = "kind=%s prec=%r tree=%s" % (kind, case["prec"], pre.canon(ordered=True, lengths=True))
     ctx.cls("gamma:kind:%s" % kind)
     ctx.cls("gamma:heights:%s" % case["heights"])
+    if pre.length[pre.root]:
+        ctx.cls("gamma:root_edge_has_length")
     args = () if case["prec"] == "default" else (case["prec"],)
 
     def call(t):
